@@ -95,6 +95,12 @@ def make_case(R):
     if r < 0.72:
         cls = R.choice(sorted(BAD_QUERIES))
         return {"kind": "bad-query:" + cls, "query": R.choice(BAD_QUERIES[cls]), "doc_value": [1], "doc_bytes": b"[1]", "expect": "fail"}
+    if r < 0.745:
+        # evaluation that may overflow the interpreter stack: comparison of two equal, deeply nested values
+        n = R.choice([200, 450, 700, 900])
+        doc = {"ref": deep_ok(n), "k": [{"v": deep_ok(n), "id": 1}, {"v": 1, "id": 2}]}
+        return {"kind": "deep-comparison", "query": R.choice(["$.k[?@.v == $.ref].id", "$.k[?@.v != $.ref].id", "$.k[?$.ref == @.v]"]), "doc_value": doc,
+                "doc_bytes": json.dumps(doc).encode(), "expect": "ok"}
     if r < 0.82:
         doc = deep_late(R)
         return {"kind": "evaluation-error", "query": R.choice(["$..*", "$..[*]", "$..a", "$..[?@]", "$.*..*"]), "doc_value": doc, "doc_bytes": json.dumps(doc).encode(), "expect": "fail"}
@@ -236,6 +242,10 @@ def one(jp, rec, R, how, repo):
     o = options(R, case)
     try:
         exp = expected(jp, case)
+    except RecursionError:
+        # the evaluation itself fails in-process: the CLI must fail gracefully too
+        case = dict(case, expect="fail", kind=case["kind"] + ":evaluation-raises")
+        exp = None
     except Exception as e:  # noqa: BLE001
         rec.note("expected() failed for a 'valid' case: %r %s" % (case["query"], e))
         return
